@@ -2,6 +2,7 @@ use crate::bases::*;
 use std::borrow::Cow;
 use std::io::Read;
 use std::mem::ManuallyDrop;
+use std::sync::atomic::{AtomicBool, Ordering};
 #[cfg(not(jubako_verif_shuttle))]
 use std::sync::{Arc, Condvar, Mutex, OnceLock};
 #[cfg(jubako_verif_shuttle)]
@@ -35,6 +36,8 @@ struct SyncVecWr {
     data: ManuallyDrop<Vec<u8>>,
     total_size: usize,
     decoded: Arc<(Mutex<usize>, Condvar)>,
+    // Set (under the `decoded` lock) if the decoder stopped before `total_size`.
+    failed: Arc<AtomicBool>,
 }
 
 unsafe impl Send for SyncVecWr {}
@@ -44,6 +47,8 @@ struct SyncVecRd {
     buffer: *const u8,
     total_size: usize,
     decoded: Arc<(Mutex<usize>, Condvar)>,
+    // Set (under the `decoded` lock) if the decoder stopped before `total_size`.
+    failed: Arc<AtomicBool>,
 }
 
 unsafe impl Send for SyncVecRd {}
@@ -58,6 +63,11 @@ impl SyncVecRd {
         let (lock, cvar) = &*self.decoded;
         let decoded = cvar.wait_while(lock.lock().unwrap(), function).unwrap();
         *decoded
+    }
+
+    #[inline]
+    pub fn has_failed(&self) -> bool {
+        self.failed.load(Ordering::Acquire)
     }
 
     #[inline]
@@ -83,18 +93,21 @@ impl SyncVecRd {
 fn create_sync_vec(size: usize) -> (SyncVecWr, SyncVecRd) {
     let buffer = Arc::new(Vec::with_capacity(size));
     let decoded = Arc::new((Mutex::new(0), Condvar::new()));
+    let failed = Arc::new(AtomicBool::new(false));
     let buffer_ptr = buffer.as_ptr();
     let rd = SyncVecRd {
         _arc: Arc::clone(&buffer),
         buffer: buffer_ptr,
         total_size: size,
         decoded: Arc::clone(&decoded),
+        failed: Arc::clone(&failed),
     };
     let rw = SyncVecWr {
         _arc: buffer,
         data: ManuallyDrop::new(unsafe { Vec::from_raw_parts(buffer_ptr as *mut u8, 0, size) }),
         total_size: size,
         decoded,
+        failed,
     };
     (rw, rd)
 }
@@ -120,10 +133,17 @@ fn decode_to_end<T: Read + Send>(
         let size = std::cmp::min(total_size - uncompressed, chunk_size);
         //  println!("decompress {size}");
 
-        uncompressed += decoder
+        let read = decoder
             .by_ref()
             .take(size as u64)
             .read_to_end(&mut buffer.data)?;
+        if read == 0 {
+            return Err(std::io::Error::new(
+                std::io::ErrorKind::UnexpectedEof,
+                "Compressed stream ends before the declared size",
+            ));
+        }
+        uncompressed += read;
         #[cfg(jubako_verif)]
         crate::verif::point("dec_written", buffer.data.as_ptr() as u64, uncompressed as u64);
         let (lock, cvar) = &*buffer.decoded;
@@ -135,6 +155,20 @@ fn decode_to_end<T: Read + Send>(
     }
     //println!("Decompress done");
     Ok(())
+}
+
+/// Run the decoder to its end. If it fails (damaged compressed stream), tell the readers:
+/// they must get an error instead of waiting forever for bytes which will never come.
+fn decode_in_background<T: Read + Send>(decoder: T, buffer: SyncVecWr) {
+    let decoded = Arc::clone(&buffer.decoded);
+    let failed = Arc::clone(&buffer.failed);
+    if let Err(e) = decode_to_end(decoder, buffer, 4 * 1024) {
+        log::warn!("Cluster decompression failed: {e}");
+        let (lock, cvar) = &*decoded;
+        let _guard = lock.lock().unwrap();
+        failed.store(true, Ordering::Release);
+        cvar.notify_all();
+    }
 }
 
 impl SeekableDecoder {
@@ -155,16 +189,25 @@ impl SeekableDecoder {
                     .unwrap()
             })
             .spawn(move || {
-                decode_to_end(decoder, write_hand, 4 * 1024).unwrap();
+                decode_in_background(decoder, write_hand);
             });
         Self { buffer: read_hand }
     }
 
     #[inline]
-    pub fn decode_to(&self, end: usize) {
+    pub fn decode_to(&self, end: usize) -> std::io::Result<()> {
         #[cfg(jubako_verif)]
         crate::verif::point("dec_wait", self.buffer.buffer as u64, end as u64);
-        self.buffer.wait_while(|d: &mut usize| *d < end);
+        let decoded = self
+            .buffer
+            .wait_while(|d: &mut usize| *d < end && !self.buffer.has_failed());
+        if decoded < end {
+            return Err(std::io::Error::new(
+                std::io::ErrorKind::InvalidData,
+                "Cannot decompress cluster, compressed data is damaged",
+            ));
+        }
+        Ok(())
     }
 
     #[inline]
@@ -182,7 +225,7 @@ impl Source for SeekableDecoder {
             offset.force_into_usize() + buf.len(),
             self.buffer.total_size(),
         );
-        self.decode_to(end);
+        self.decode_to(end)?;
         let mut slice = &self.decoded_slice()[offset.force_into_usize()..];
         Read::read(&mut slice, buf)
     }
@@ -195,7 +238,7 @@ impl Source for SeekableDecoder {
                 "Out of slice",
             ));
         }
-        self.decode_to(end);
+        self.decode_to(end)?;
         let slice = self.decoded_slice();
         assert!(end <= slice.len());
         buf.copy_from_slice(&self.decoded_slice()[o..end]);
@@ -213,7 +256,7 @@ impl Source for SeekableDecoder {
                 self.size()
             )));
         }
-        self.decode_to(region.end().force_into_usize());
+        self.decode_to(region.end().force_into_usize())?;
         Ok(Cow::Borrowed(
             &self.decoded_slice()
                 [region.begin().force_into_usize()..region.end().force_into_usize()],
